@@ -8,7 +8,9 @@ use coset::iana::{self, EnumI64};
 use std::sync::OnceLock;
 
 pub fn pat(len: usize, salt: u8) -> Vec<u8> {
-    (0..len).map(|i| (i as u8).wrapping_mul(31).wrapping_add(salt)).collect()
+    (0..len)
+        .map(|i| (i as u8).wrapping_mul(31).wrapping_add(salt))
+        .collect()
 }
 
 /// Byte strings of every CBOR length class (index order: cheap ones first).
@@ -123,8 +125,23 @@ pub const CONTENT_FORMATS: &[i64] = &[0, 16, 17, 18, 42, 60, 61, 96, 97, 98, 101
 pub const KEY_TYPES: &[i64] = &[0, 1, 2, 3, 4, 5, 6];
 pub const KEY_OPS: &[i64] = &[1, 2, 3, 4, 5, 6, 7, 8, 9, 10];
 pub const CURVES: &[i64] = &[0, 1, 2, 3, 4, 5, 6, 7, 8];
-pub const CLAIM_NAMES: &[i64] = &[-260, -259, -258, -257, 0, 1, 2, 3, 4, 5, 6, 7, 8, 9, 38, 39, 40];
-pub const PRIVATE_IDS: &[i64] = &[-65537, -65538, -70000, i64::MIN, -65536, -65535, -1, 0, 1, 7, 8, i64::MAX];
+pub const CLAIM_NAMES: &[i64] = &[
+    -260, -259, -258, -257, 0, 1, 2, 3, 4, 5, 6, 7, 8, 9, 38, 39, 40,
+];
+pub const PRIVATE_IDS: &[i64] = &[
+    -65537,
+    -65538,
+    -70000,
+    i64::MIN,
+    -65536,
+    -65535,
+    -1,
+    0,
+    1,
+    7,
+    8,
+    i64::MAX,
+];
 pub const TIMESTAMPS_WHOLE: &[i64] = &[0, 1, -1, 1_600_000_000, i64::MAX, i64::MIN];
 pub const TIMESTAMPS_FRAC: &[f64] = &[0.5, 1.6e9, -1.25, 1e300];
 pub const NONCE_INTS: &[i64] = &[0, 1, -1, 24, i64::MAX, i64::MIN];
@@ -160,7 +177,11 @@ pub fn value_palette() -> &'static Vec<MValue> {
 }
 
 fn sig(p: MHeader, u: MHeader, s: &[u8]) -> MSignature {
-    MSignature { protected: MProtected::built(p), unprotected: u, signature: s.to_vec() }
+    MSignature {
+        protected: MProtected::built(p),
+        unprotected: u,
+        signature: s.to_vec(),
+    }
 }
 
 /// Header descriptors.  For each field there is a pair of entries that differ only in that field.
@@ -168,39 +189,90 @@ pub fn header_palette() -> &'static Vec<MHeader> {
     static P: OnceLock<Vec<MHeader>> = OnceLock::new();
     P.get_or_init(|| {
         let h = MHeader::default;
-        let alg = |a: i64| MHeader { alg: Some(MRegP::Assigned(a)), ..h() };
-        let kid = |k: &[u8]| MHeader { key_id: k.to_vec(), ..h() };
+        let alg = |a: i64| MHeader {
+            alg: Some(MRegP::Assigned(a)),
+            ..h()
+        };
+        let kid = |k: &[u8]| MHeader {
+            key_id: k.to_vec(),
+            ..h()
+        };
         let mut v = vec![
-            h(),                                                              // 0
-            alg(-7),                                                          // 1
-            alg(-35),                                                         // 2
-            kid(b"11"),                                                       // 3
-            kid(b"12"),                                                       // 4
-            MHeader { key_id: b"11".to_vec(), ..alg(-7) },                    // 5
-            MHeader { key_id: b"12".to_vec(), ..alg(-7) },                    // 6
-            MHeader { crit: vec![MReg::Assigned(1)], ..h() },                 // 7
-            MHeader { crit: vec![MReg::Assigned(1), MReg::Text("x".into())], ..h() }, // 8
-            MHeader { content_type: Some(MReg::Assigned(60)), ..h() },        // 9
-            MHeader { content_type: Some(MReg::Text("text/plain".into())), ..h() }, // 10
-            MHeader { iv: vec![1, 2, 3], ..h() },                             // 11
-            MHeader { partial_iv: vec![1, 2, 3], ..h() },                     // 12
-            MHeader { iv: vec![1, 2, 4], ..h() },                             // 13
-            MHeader { rest: vec![(MLabel::Int(1000), MValue::Int(1))], ..h() }, // 14
-            MHeader { rest: vec![(MLabel::Int(1000), MValue::Int(2))], ..h() }, // 15
-            MHeader { rest: vec![(MLabel::Text("lbl".into()), MValue::Bytes(vec![9]))], ..h() }, // 16
+            h(),        // 0
+            alg(-7),    // 1
+            alg(-35),   // 2
+            kid(b"11"), // 3
+            kid(b"12"), // 4
+            MHeader {
+                key_id: b"11".to_vec(),
+                ..alg(-7)
+            }, // 5
+            MHeader {
+                key_id: b"12".to_vec(),
+                ..alg(-7)
+            }, // 6
+            MHeader {
+                crit: vec![MReg::Assigned(1)],
+                ..h()
+            }, // 7
+            MHeader {
+                crit: vec![MReg::Assigned(1), MReg::Text("x".into())],
+                ..h()
+            }, // 8
+            MHeader {
+                content_type: Some(MReg::Assigned(60)),
+                ..h()
+            }, // 9
+            MHeader {
+                content_type: Some(MReg::Text("text/plain".into())),
+                ..h()
+            }, // 10
+            MHeader {
+                iv: vec![1, 2, 3],
+                ..h()
+            }, // 11
+            MHeader {
+                partial_iv: vec![1, 2, 3],
+                ..h()
+            }, // 12
+            MHeader {
+                iv: vec![1, 2, 4],
+                ..h()
+            }, // 13
+            MHeader {
+                rest: vec![(MLabel::Int(1000), MValue::Int(1))],
+                ..h()
+            }, // 14
+            MHeader {
+                rest: vec![(MLabel::Int(1000), MValue::Int(2))],
+                ..h()
+            }, // 15
+            MHeader {
+                rest: vec![(MLabel::Text("lbl".into()), MValue::Bytes(vec![9]))],
+                ..h()
+            }, // 16
             MHeader {
                 rest: vec![
-                    (MLabel::Int(-70000), MValue::Array(vec![MValue::Int(1), MValue::Null])),
+                    (
+                        MLabel::Int(-70000),
+                        MValue::Array(vec![MValue::Int(1), MValue::Null]),
+                    ),
                     (MLabel::Int(i64::MAX), MValue::Null),
                 ],
                 ..h()
             }, // 17
-            MHeader { counter_signatures: vec![sig(alg(-7), kid(b"cs"), b"CS1")], ..h() }, // 18
+            MHeader {
+                counter_signatures: vec![sig(alg(-7), kid(b"cs"), b"CS1")],
+                ..h()
+            }, // 18
             MHeader {
                 counter_signatures: vec![sig(alg(-7), kid(b"cs"), b"CS1"), sig(h(), h(), b"CS2")],
                 ..h()
             }, // 19
-            MHeader { counter_signatures: vec![sig(alg(-35), kid(b"cs"), b"CS1")], ..h() }, // 20
+            MHeader {
+                counter_signatures: vec![sig(alg(-35), kid(b"cs"), b"CS1")],
+                ..h()
+            }, // 20
             MHeader {
                 alg: Some(MRegP::Assigned(-8)),
                 crit: vec![MReg::Assigned(4)],
@@ -214,44 +286,105 @@ pub fn header_palette() -> &'static Vec<MHeader> {
                     (MLabel::Text("t".into()), MValue::Text("v".into())),
                 ],
             }, // 21
-            MHeader { alg: Some(MRegP::Private(-70000)), ..h() },             // 22
-            MHeader { alg: Some(MRegP::Text("custom".into())), ..h() },       // 23
-            kid(&pat(300, 9)),                                                // 24 (protected bstr > 255 bytes)
             MHeader {
-                rest: vec![(MLabel::Int(0), MValue::Text(text_palette().last().unwrap().clone()))],
+                alg: Some(MRegP::Private(-70000)),
+                ..h()
+            }, // 22
+            MHeader {
+                alg: Some(MRegP::Text("custom".into())),
+                ..h()
+            }, // 23
+            kid(&pat(300, 9)), // 24 (protected bstr > 255 bytes)
+            MHeader {
+                rest: vec![(
+                    MLabel::Int(0),
+                    MValue::Text(text_palette().last().unwrap().clone()),
+                )],
                 ..h()
             }, // 25
-            MHeader { key_id: b"11".to_vec(), ..alg(-35) },                   // 26
-            MHeader { content_type: Some(MReg::Assigned(42)), ..h() },        // 27
+            MHeader {
+                key_id: b"11".to_vec(),
+                ..alg(-35)
+            }, // 26
+            MHeader {
+                content_type: Some(MReg::Assigned(42)),
+                ..h()
+            }, // 27
         ];
         // headers that a sender can emit through struct literals and that do NOT re-encode to the
-    // same bytes after a parse (so "reuse the wire bytes" and "re-encode the parsed header" differ):
-    // a label of a typed field supplied as an extra parameter after another typed field ...
-    v.push(MHeader { key_id: b"kid".to_vec(), rest: vec![(MLabel::Int(1), MValue::Int(-3))], ..h() }); // 28
-    // ... and an extra parameter whose value is a small bignum (tag 2), which the CBOR layer
-    // folds into a plain integer when parsing
-    v.push(MHeader { rest: vec![(MLabel::Int(1000), MValue::Tag(2, Box::new(MValue::Bytes(vec![1]))))], ..h() }); // 29
-    // pairs that differ only INSIDE a structured extra-parameter value of the same shape
-    // (an x5chain-like array of one certificate; a one-entry map): anything that summarises a
-    // header by its shape would conflate them
-    v.push(MHeader { rest: vec![(MLabel::Int(33), MValue::Array(vec![MValue::Bytes(b"cert-A".to_vec())]))], ..h() });
-    v.push(MHeader { rest: vec![(MLabel::Int(33), MValue::Array(vec![MValue::Bytes(b"cert-B".to_vec())]))], ..h() });
-    v.push(MHeader { rest: vec![(MLabel::Int(1001), MValue::Map(vec![(MValue::Int(1), MValue::Text("a".into()))]))], ..h() });
-    v.push(MHeader { rest: vec![(MLabel::Int(1001), MValue::Map(vec![(MValue::Int(1), MValue::Text("b".into()))]))], ..h() });
-    v.push(MHeader { rest: vec![(MLabel::Int(1001), MValue::Map(vec![(MValue::Int(2), MValue::Text("a".into()))]))], ..h() });
-    // protected bstr whose serialised length sits exactly on each CBOR head boundary
-    // ({4: kid} encodes as a1 04 <head> <kid>): 23, 24, 255, 256 bytes here; 65535 and 65536 are
-    // appended last (rarely picked, they are expensive)
-    v.push(kid(&pat(20, 15)));
-    v.push(kid(&pat(21, 16)));
-    v.push(kid(&pat(251, 17)));
-    v.push(kid(&pat(252, 18)));
-    // protected bstr in the 24..=255 and 128..=255 length classes
-    v.push(kid(&pat(60, 13)));
-    v.push(kid(&pat(200, 14)));
-    // a header nesting a counter signature whose own protected header holds a counter signature
-        let inner = MHeader { counter_signatures: vec![sig(alg(-7), h(), b"deep")], ..h() };
-        v.push(MHeader { counter_signatures: vec![sig(inner, h(), b"outer")], ..h() }); // 30
+        // same bytes after a parse (so "reuse the wire bytes" and "re-encode the parsed header" differ):
+        // a label of a typed field supplied as an extra parameter after another typed field ...
+        v.push(MHeader {
+            key_id: b"kid".to_vec(),
+            rest: vec![(MLabel::Int(1), MValue::Int(-3))],
+            ..h()
+        }); // 28
+            // ... and an extra parameter whose value is a small bignum (tag 2), which the CBOR layer
+            // folds into a plain integer when parsing
+        v.push(MHeader {
+            rest: vec![(
+                MLabel::Int(1000),
+                MValue::Tag(2, Box::new(MValue::Bytes(vec![1]))),
+            )],
+            ..h()
+        }); // 29
+            // pairs that differ only INSIDE a structured extra-parameter value of the same shape
+            // (an x5chain-like array of one certificate; a one-entry map): anything that summarises a
+            // header by its shape would conflate them
+        v.push(MHeader {
+            rest: vec![(
+                MLabel::Int(33),
+                MValue::Array(vec![MValue::Bytes(b"cert-A".to_vec())]),
+            )],
+            ..h()
+        });
+        v.push(MHeader {
+            rest: vec![(
+                MLabel::Int(33),
+                MValue::Array(vec![MValue::Bytes(b"cert-B".to_vec())]),
+            )],
+            ..h()
+        });
+        v.push(MHeader {
+            rest: vec![(
+                MLabel::Int(1001),
+                MValue::Map(vec![(MValue::Int(1), MValue::Text("a".into()))]),
+            )],
+            ..h()
+        });
+        v.push(MHeader {
+            rest: vec![(
+                MLabel::Int(1001),
+                MValue::Map(vec![(MValue::Int(1), MValue::Text("b".into()))]),
+            )],
+            ..h()
+        });
+        v.push(MHeader {
+            rest: vec![(
+                MLabel::Int(1001),
+                MValue::Map(vec![(MValue::Int(2), MValue::Text("a".into()))]),
+            )],
+            ..h()
+        });
+        // protected bstr whose serialised length sits exactly on each CBOR head boundary
+        // ({4: kid} encodes as a1 04 <head> <kid>): 23, 24, 255, 256 bytes here; 65535 and 65536 are
+        // appended last (rarely picked, they are expensive)
+        v.push(kid(&pat(20, 15)));
+        v.push(kid(&pat(21, 16)));
+        v.push(kid(&pat(251, 17)));
+        v.push(kid(&pat(252, 18)));
+        // protected bstr in the 24..=255 and 128..=255 length classes
+        v.push(kid(&pat(60, 13)));
+        v.push(kid(&pat(200, 14)));
+        // a header nesting a counter signature whose own protected header holds a counter signature
+        let inner = MHeader {
+            counter_signatures: vec![sig(alg(-7), h(), b"deep")],
+            ..h()
+        };
+        v.push(MHeader {
+            counter_signatures: vec![sig(inner, h(), b"outer")],
+            ..h()
+        }); // 30
         v.push(kid(&pat(65530, 19)));
         v.push(kid(&pat(65531, 20)));
         v
@@ -284,12 +417,18 @@ pub fn check_palettes() -> Result<(), String> {
                 return Err(format!("header palette entries {} and {} are equal", i, j));
             }
             if encs[i] == encs[j] {
-                return Err(format!("header palette entries {} and {} encode equally", i, j));
+                return Err(format!(
+                    "header palette entries {} and {} encode equally",
+                    i, j
+                ));
             }
         }
         // reference encodings must be well-formed CBOR
         if refcbor::read_exact(&encs[i]).is_err() {
-            return Err(format!("header palette entry {} reference encoding malformed", i));
+            return Err(format!(
+                "header palette entry {} reference encoding malformed",
+                i
+            ));
         }
     }
     // the boundary entries must really sit on the boundaries (reference encoding lengths)
@@ -297,7 +436,10 @@ pub fn check_palettes() -> Result<(), String> {
     lens.sort();
     for want in [23usize, 24, 255, 256, 65535, 65536] {
         if !lens.contains(&want) {
-            return Err(format!("no header palette entry whose reference encoding is {} bytes long", want));
+            return Err(format!(
+                "no header palette entry whose reference encoding is {} bytes long",
+                want
+            ));
         }
     }
     let bs = bytes_palette();
@@ -313,7 +455,11 @@ pub fn check_palettes() -> Result<(), String> {
 
 /// Every value of a registry in [-70000, 70000], found by scanning `from_i64` once.
 pub fn registry<T: EnumI64>(cell: &'static std::sync::OnceLock<Vec<i64>>) -> &'static [i64] {
-    cell.get_or_init(|| (-70_000i64..=70_000).filter(|i| T::from_i64(*i).is_some()).collect())
+    cell.get_or_init(|| {
+        (-70_000i64..=70_000)
+            .filter(|i| T::from_i64(*i).is_some())
+            .collect()
+    })
 }
 macro_rules! reg_list {
     ($name:ident, $t:ty) => {
@@ -330,4 +476,3 @@ reg_list!(all_key_types, iana::KeyType);
 reg_list!(all_key_ops, iana::KeyOperation);
 reg_list!(all_curves, iana::EllipticCurve);
 reg_list!(all_claim_names, iana::CwtClaimName);
-
